@@ -194,4 +194,23 @@ func genC23(g *gen) {
 		})
 	}
 	g.line("Definition gen_empty_bound_address_becomes_nil : bool := %s.", coqBool(nilConv))
+
+	// buffers: readRequest fills only buffers it allocates itself (nothing pooled or shared escapes into the
+	// Request), sendReply encodes into a local buffer, and the Handler carries no scratch buffer
+	g.line("Definition gen_read_request_buffers_are_fresh : bool := %s.", coqBool(freshBuffers(findFunc(hf, "Handler", "readRequest"), false)))
+	g.line("Definition gen_send_reply_buffer_is_local : bool := %s.", coqBool(freshBuffers(findFunc(hf, "Handler", "sendReply"), true)))
+	g.line("Definition gen_handler_has_no_shared_buffer_field : bool := %s.", coqBool(!structHasBufferField(hf, "Handler")))
+	noRecover := true
+	for _, fn := range []string{"Handle", "authenticate"} {
+		if fd := findFunc(hf, "Handler", fn); fd != nil && fd.Body != nil {
+			calls(fd.Body, func(c *ast.CallExpr) {
+				if calleeName(c) == "recover" {
+					noRecover = false
+				}
+			})
+		} else {
+			noRecover = false
+		}
+	}
+	g.line("Definition gen_handle_does_not_swallow_panics : bool := %s.", coqBool(noRecover))
 }
